@@ -3,9 +3,20 @@ import importlib
 
 
 def run_corpus(prop, root):
+    from .mutants import harness, autotwins
     try:
         mod = importlib.import_module("sa.mutants.%s" % prop.lower())
     except ImportError:
-        return {"mutants_total": 0, "mutants_note": "no mutant corpus registered for this property yet"}
-    from .mutants import harness
-    return harness.run(prop, root, mod)
+        mod = None
+    out = harness.run(prop, root, mod) if mod is not None else {"mutants_total": 0, "mutant_failures": [], "mutant_results": []}
+    out.setdefault("mutant_failures", [])
+    out.setdefault("mutant_results", [])
+    # automatic behaviour-preserving rewrites of every consulted module
+    twins = autotwins.run(prop, root)
+    out["auto_twins"] = twins
+    for t in twins:
+        if t["status"] == "TWIN-ALARM":
+            out["mutant_failures"].append("%s: TWIN-ALARM %s" % (t["name"], [(a["rule"], a["function"].rsplit(".", 1)[-1]) for a in t.get("alarms", [])][:4]))
+    out["auto_twin_rule"] = ("every module the property consults is rewritten (all locals renamed; re-emitted by ast.unparse) on a scratch copy; "
+                             "the rules may refuse to answer but must not report a violation")
+    return out
